@@ -1755,14 +1755,16 @@ func findRequiredLandmarkChainLeftToRight(r *Runner, chain *syntax.RequiredLandm
 			return false
 		}
 
-		nextStart := first.End
+		// A later landmark only has to start after this one began: End is where the
+		// greedy scan of a repeated set stopped, the match itself may take fewer.
+		nextStart := first.CoreStart + 1
 		for i := 1; i < len(chain.Landmarks); i++ {
 			landmark, ok := findNextRequiredLandmarkRunes(r.Runtext, nextStart, r.Runtextend, chain.Landmarks[i])
 			if !ok {
 				r.Runtextpos = r.Runtextend
 				return false
 			}
-			nextStart = landmark.End
+			nextStart = landmark.CoreStart + 1
 		}
 
 		candidate := first.Start
@@ -1792,10 +1794,16 @@ type requiredLandmarkMatch struct {
 
 func findNextRequiredLandmarkRunes(input []rune, startAt, endAt int, landmark syntax.RequiredLandmark) (requiredLandmarkMatch, bool) {
 	for i := startAt; i < endAt; i++ {
+		// several alternatives can match here; report the one reaching back furthest
+		var best requiredLandmarkMatch
+		found := false
 		for _, alt := range landmark.Alternatives {
-			if match, ok := requiredLandmarkAlternativeMatch(input, i, endAt, alt); ok {
-				return match, true
+			if match, ok := requiredLandmarkAlternativeMatch(input, i, endAt, alt); ok && (!found || match.Start < best.Start) {
+				best, found = match, true
 			}
+		}
+		if found {
+			return best, true
 		}
 	}
 	return requiredLandmarkMatch{}, false
@@ -1824,6 +1832,12 @@ func requiredLandmarkAlternativeMatch(input []rune, start, endAt int, alt syntax
 		}
 		if end-start < alt.MinRepeat {
 			return requiredLandmarkMatch{}, false
+		}
+		if alt.RequireWhitespaceAfter && alt.TrailingWhitespaceSet != nil {
+			// a shorter repeat may be the one followed by the required whitespace
+			for end-start > alt.MinRepeat && (end >= endAt || !alt.TrailingWhitespaceSet.CharIn(input[end])) {
+				end--
+			}
 		}
 	} else {
 		return requiredLandmarkMatch{}, false
